@@ -38,6 +38,10 @@ pub fn base_types() -> Vec<FTy> {
         ft("u16", &["3u16", "4u16", "65535u16"], ALL | CONSTVAL),
         // implements every std trait normally and has inherent methods of the same names that answer wrongly
         ft("Decoy", &["Decoy(1)", "Decoy(2)", "Decoy(200)"], ALL | CONSTVAL),
+        // an array whose length is a constant expression, of a non-Copy element type: only `[E; LEN]: Default` itself builds it
+        ft("[String; 1 + 1]", &["[String::from(\"a\"), String::new()]", "[String::new(), String::from(\"b\")]", "[String::new(), String::new()]"], ALL & !COPY),
+        // not the Into target `Wrap`, although it is spelled with that name at the end of its path
+        ft("crate::prelude::alt::Wrap", &["crate::prelude::alt::Wrap(1)", "crate::prelude::alt::Wrap(2)", "crate::prelude::alt::Wrap(-3)"], ALL | CONSTVAL),
     ];
     v[5].refs = 1;
     v[0].clone_methods.push("m_clone_u8".into());
@@ -354,6 +358,7 @@ pub fn converts(src: &str, target: &str) -> bool {
             | ("char", "u32") | ("char", "u64") | ("char", "String") | ("char", "Wrap")
             | ("&'static str", "String") | ("&'static str", "Wrap")
             | ("String", "Wrap")
+            | ("crate::prelude::alt::Wrap", "Wrap")
             | ("Decoy", "u16") | ("Decoy", "u32") | ("Decoy", "u64") | ("Decoy", "i64")
     )
 }
